@@ -5,6 +5,8 @@ import FinamModel.Translated.Output_get_data
 import FinamModel.Translated.push_data_gate
 import FinamModel.Translated.Output_push_data
 import FinamModel.Translated.Output_info
+import FinamModel.Translated.Output_pinged
+import FinamModel.Translated.Adapter_pinged
 import FinamModel.Static
 import FinamModel.Props.C09
 import FinamModel.Props.C08
@@ -335,6 +337,41 @@ example : codeRun (codeInit Nat 2) exEvs =
     [none, some (.ok 0), some (.ok 0), none, some (.ok 1), none, some (.ok 1), some (.ok 2), some (.ok 2)] := by
   have h := code_evict_refines_unbounded 2 exEvs (by decide)
   rw [h]; decide
+
+/-! ### the ping phase: who is an end point of an output -/
+
+/-- **`Output.pinged`**: the pinging input (or push-based adapter) becomes an end point that has not pulled yet; a plain input
+    pinging a second time is an error; an adapter may ping again (a branching pass-through adapter pings once per target) -/
+theorem tr_Output_pinged (ci : List (Nat × Option Int)) (src : Nat) (isAd : Nat → Bool) :
+    Tr.Output_pinged ci src isAd =
+      if !isAd src && Py.dictHas ci src then .error .other else .ok (Py.dictSet ci src none) := by
+  unfold Tr.Output_pinged
+  cases isAd src <;> cases Py.dictHas ci src <;> simp [throw, throwThe, MonadExceptOf.throw, pure, Except.pure]
+
+/-- **`Adapter.pinged`**: a push-based adapter announces *itself* upstream (it is the output's end point: it pulls when
+    notified), a pass-through adapter passes the pinging input on -/
+theorem tr_Adapter_pinged (needsPush : Bool) (ann : List Nat) (src me : Nat) :
+    Tr.Adapter_pinged needsPush ann src me = .ok (ann ++ [if needsPush then me else src]) := by
+  cases needsPush <;> simp [Tr.Adapter_pinged, Py.recordPush, bind, Except.bind, pure, Except.pure]
+
+/-- **the end point of a link, on the code**: pinging through a chain of adapters (the one next to the input first) announces
+    to the output the first push-based adapter seen from the output's side — or the input itself when there is none -/
+def announceChain (me : Nat) : List (Nat × Bool) → Nat
+  | [] => me
+  | (a, push) :: rest => announceChain (if push then a else me) rest
+
+theorem code_ping_chain (src : Nat) : ∀ (chain : List (Nat × Bool)) (cur : Nat),
+    (chain.foldl (fun acc ad => match Tr.Adapter_pinged ad.2 [] acc ad.1 with
+        | .ok [x] => x
+        | _ => acc) cur) = announceChain cur chain := by
+  intro chain
+  induction chain with
+  | nil => intro cur; rfl
+  | cons ad rest ih =>
+    intro cur
+    obtain ⟨a, push⟩ := ad
+    simp only [List.foldl_cons, tr_Adapter_pinged, List.nil_append, announceChain]
+    exact ih _
 
 end Finam.Props.C09
 
